@@ -140,7 +140,8 @@ def rule_bc_spaced(ctx: RuleContext, p: Program, g: rx.Grammar, rid: str) -> Non
 
 
 def _fstring_parts(e: ast.AST) -> Optional[list[tuple[str, str]]]:
-    """JoinedStr -> [('lit', text) | ('val', expr, spec)]"""
+    """a text-building expression -> [('lit', text) | ('val', 'expr|spec')]: f-strings, + concatenation, 'sep'.join((..)), format(e, 'spec'),
+    str(e), '{:spec}'.format(e)"""
     if isinstance(e, ast.Constant) and isinstance(e.value, str):
         return [('lit', e.value)]
     if isinstance(e, ast.JoinedStr):
@@ -155,6 +156,27 @@ def _fstring_parts(e: ast.AST) -> Optional[list[tuple[str, str]]]:
                     spec = ''.join(t for k, t in sp or [] if k == 'lit')
                 out.append(('val', norm(v.value) + ('|' + spec if spec else '')))
         return out
+    if isinstance(e, ast.BinOp) and isinstance(e.op, ast.Add):
+        l, r = _fstring_parts(e.left), _fstring_parts(e.right)
+        return None if l is None or r is None else l + r
+    if isinstance(e, ast.Call) and isinstance(e.func, ast.Attribute) and e.func.attr == 'join' and isinstance(e.func.value, ast.Constant) \
+            and isinstance(e.func.value.value, str) and len(e.args) == 1 and isinstance(e.args[0], (ast.Tuple, ast.List)):
+        out = []
+        for i, x in enumerate(e.args[0].elts):
+            px = _fstring_parts(x)
+            if px is None:
+                return None
+            if i:
+                out.append(('lit', e.func.value.value))
+            out.extend(px)
+        return out
+    if isinstance(e, ast.Call) and norm(e.func) == 'format' and len(e.args) in (1, 2) and not e.keywords:
+        spec = e.args[1].value if len(e.args) == 2 and isinstance(e.args[1], ast.Constant) and isinstance(e.args[1].value, str) else ('' if len(e.args) == 1 else None)
+        if spec is None:
+            return None
+        return [('val', norm(e.args[0]) + ('|' + spec if spec else ''))]
+    if isinstance(e, ast.Call) and norm(e.func) == 'str' and len(e.args) == 1:
+        return [('val', norm(e.args[0]))]
     return None
 
 
@@ -489,10 +511,25 @@ def _esc_callable_sem(p: Program, c: ClassInfo, fn: FuncInfo, table: dict, direc
         match = possem.Obj('Match', {'groups': {0: ch if direction == 'esc' else '\\' + ch, 1: ch}}, f'match {ch!r}')
         try:
             if isinstance(repl, ast.Lambda):
-                got = it.call_value(possem._Lambda(repl, {}), [match], {}, repl)
+                outer_l: dict = {}
+                for st_ in fn.node.body:
+                    if isinstance(st_, ast.Assign) and len(st_.targets) == 1 and isinstance(st_.targets[0], ast.Name):
+                        try:
+                            outer_l[st_.targets[0].id] = it.expr(st_.value, outer_l)
+                        except AnalysisError:
+                            pass
+                got = it.call_value(possem._Lambda(repl, outer_l), [match], {}, repl)
             elif isinstance(repl, ast.Name) and repl.id in local_defs:
                 d = local_defs[repl.id]
-                en = {d.args.args[0].arg: match}
+                outer: dict = {}
+                for st_ in fn.node.body:          # locals of the enclosing function the nested one closes over (aliases of the tables)
+                    if isinstance(st_, ast.Assign) and len(st_.targets) == 1 and isinstance(st_.targets[0], ast.Name):
+                        try:
+                            outer[st_.targets[0].id] = it.expr(st_.value, outer)
+                        except AnalysisError:
+                            pass
+                en = dict(outer)
+                en[d.args.args[0].arg] = match
                 try:
                     it.block([b for b in d.body if not (isinstance(b, ast.Expr) and isinstance(b.value, ast.Constant))], en)
                     got = None
